@@ -116,6 +116,9 @@ func (env *ExprEnv) callExpr(e *ast.CallExpr) Val {
 		if x.K == KSlice {
 			return x.Fields[1]
 		}
+		if x.Unset {
+			return intVal(env.t.fresh("unset:len", "Int"))
+		}
 		return env.fail("len of %s", x.K)
 	case "upd":
 		m, i, v := arg(0), arg(1), arg(2)
